@@ -1,5 +1,7 @@
 import FqModel.Total
+import FqModel.Total2
 import Proofs.C13
+import Proofs.C13b
 /-!
   C13 — "every function fq adds is total over jq values": property theorems about the models
   of FqModel/Total.lean.  Helper lemmas: Proofs/C13.lean.
@@ -14,7 +16,11 @@ import Proofs.C13
   excludes both `panic` and `resource`:
      bnot bsl bsr band bor bxor · shift-count validators · CastFn / FuncN wrappers ·
      to_toml / to_xml / tojson / to_yaml indent · OptionsFromValue clamps + dump.go arithmetic ·
-     Binary index / slice ranges · _intdiv / to_radix / from_radix.
+     Binary index / slice ranges · _intdiv / to_radix / from_radix ·
+     (second batch, FqModel/Total2.lean) from_hex · to_hex / _to_base64 / _to_hash / _from_strencoding /
+     nal_unescape over ToBitReader · _to_strencoding · from_urlencode / from_urlpath / from_urlquery ·
+     to_urlquery / to_url · _to_csv · _query_fromstring's error position · _stdio_read / _stdio_write /
+     _stdio_info.
   Found by this check and since fixed in /repo (`decide` witnesses about the old code kept):
      `_tobits({unit:0})` divided by zero; `tojson({indent:-(2^62+1)})` wrapped around to a huge
      depth; display options with a huge line_bytes never finished / exhausted memory;
@@ -835,5 +841,258 @@ example : fromRadix "ff".toList 16 = .ok 255 ∧ fromRadix "-1".toList 10 = .err
     ∧ fromRadix "9".toList 2 = .err "invalid char" ∧ fromRadix [] 10 = .err "empty string" := by decide
 example : intdiv 7 0 = .err "zero-modulo" ∧ intdiv 7 (-1) = .err "zero-modulo" ∧ intdiv (-7) 2 = .ok 0
     ∧ intdiv 7 2 = .ok 3 := by decide
+
+/-! ## second batch (FqModel/Total2.lean): more Go-registered functions
+
+    Each function below is modelled with its argument casts and every fault-capable Go operation
+    (index, slice, explicit `panic(...)`, make) as a `panic` outcome. -/
+
+/-- from_hex: hex.DecodeString never indexes `src` or `dst` out of range and `dst[:n]` is in
+    range on every path (n ≤ len/2), for every byte string -/
+theorem hex_decode_total (src : List Nat) : (hexDecodeString src).noFault = true := by
+  unfold hexDecodeString
+  obtain ⟨n, out, e, h, hn⟩ := hexLoop_good (src.length + 1) src 0 1 [] (by omega) (by omega)
+  simp only [h, Outcome.bind]
+  have : ¬ n > src.length / 2 := by omega
+  simp only [goSliceTo, this, if_false]
+  cases e <;> rfl
+
+theorem from_hex_total (c : JV) : (fromHex c).noFault = true :=
+  castwrap0_total castStr hexDecodeString hex_decode_total c
+
+/-- the decoded length: an even-length string of hex digits decodes; the loop had enough fuel -/
+theorem hex_decode_fuel_suffices : hexDecodeString [52, 49, 54, 50] = .ok [65, 98] ∧
+    hexDecodeString [52, 49, 54] = .err "odd length" ∧ hexDecodeString [52, 120] = .err "invalid byte" ∧
+    hexDecodeString [] = .ok [] := by decide
+
+/-- ToBitReader never faults, whatever the value (nested arrays included); a number's range
+    request `Range(bytes, padBefore, bitLen)` is inside its own bytes -/
+theorem to_bit_reader_total (dvBits : Nat) (inArr : Bool) (v : JV) : (toBitReader dvBits inArr v).noFault = true :=
+  toBitReader_noFault dvBits inArr v
+
+/-- …and outside an array a number always converts: the error branches of bitiox.Range are dead -/
+theorem to_bit_reader_number_ok (i : Int) : numBitReader false i = .ok (max 1 (bitLen i)) := by
+  unfold numBitReader bitioxRange
+  simp only [Bool.false_eq_true, if_false]
+  by_cases h0 : bitLen i = 0
+  · simp [h0]
+  · have h1 : ¬ ((bitLen i : Nat) : Int) < 0 := by omega
+    have h2 : ¬ (((8 - bitLen i % 8) % 8 : Nat) : Int) + ((bitLen i : Nat) : Int) > ((8 * ((bitLen i + 7) / 8) : Nat) : Int) := by
+      omega
+    have h3 : (bitLen i == 0) = false := by simpa using h0
+    simp only [h3, h1, h2, if_false, Bool.false_eq_true]
+    congr 1
+    simp only [Int.toNat_natCast]
+    omega
+
+theorem to_hex_total (dvBits : Nat) (c : JV) : (toHex dvBits c).noFault = true := by
+  unfold toHex
+  exact noFault_bind_ok _ _ (toBitReader_noFault _ _ _) (fun _ _ => rfl)
+
+theorem to_base64_total (dvBits : Nat) (c opts : JV) : (toBase64 dvBits c opts).noFault = true := by
+  unfold toBase64
+  split
+  · rfl
+  · exact noFault_bind_ok _ _ (toBitReader_noFault _ _ _) (fun _ _ => rfl)
+
+theorem to_hash_total (dvBits : Nat) (c opts : JV) : (toHash dvBits c opts).noFault = true := by
+  unfold toHash
+  split
+  · rfl
+  · apply noFault_bind_ok _ _ (toBitReader_noFault _ _ _)
+    intro _ _; split <;> rfl
+
+/-- the x/text encoder / decoder is abstract: if it does not fault, the function does not -/
+theorem to_strencoding_total (c opts : JV) (enc : Outcome Unit) (henc : enc.noFault = true) :
+    (toStrEncoding c opts enc).noFault = true := by
+  unfold toStrEncoding
+  split
+  · rfl
+  · split
+    · rfl
+    · split
+      · exact henc
+      · rfl
+
+theorem from_strencoding_total (dvBits : Nat) (c opts : JV) (dec : Outcome Unit) (hdec : dec.noFault = true) :
+    (fromStrEncoding dvBits c opts dec).noFault = true := by
+  unfold fromStrEncoding
+  split
+  · rfl
+  · apply noFault_bind_ok _ _ (toBitReader_noFault _ _ _)
+    intro _ _; split
+    · exact hdec
+    · rfl
+
+/-- nalUnescapeReader.Read: for every buffer length, every data the inner reader delivered
+    (n ≤ len p, the io.Reader contract) and every state: no index out of range, and the returned
+    count is the number of bytes kept — in particular never negative, never above len p -/
+theorem nal_read_count (plen : Nat) (bs : List Nat) (st : NalState) (h : bs.length ≤ plen) :
+    ∃ n ni st' out, nalRead plen bs st = .ok (n, ni, st', out) ∧ n = (out.length : Int) ∧ out.length ≤ plen := by
+  unfold nalRead
+  have hs : ¬ bs.length > plen := by omega
+  simp only [goSliceTo, hs, if_false, Outcome.bind]
+  obtain ⟨n', ni', st', out', h1, h2, h3, h4⟩ := nalLoop_good plen bs 0 0 bs.length st [] (by omega) (by omega) (by simp) rfl
+  exact ⟨n', ni', st', out', h1, by omega, by omega⟩
+
+theorem nal_unescape_total (dvBits : Nat) (c : JV) (bs : List Nat) : (nalUnescape dvBits c bs).noFault = true := by
+  unfold nalUnescape
+  apply noFault_bind_ok _ _ (toBitReader_noFault _ _ _)
+  intro _ _
+  obtain ⟨n, ni, st', out, h1, h2, _⟩ := nal_read_count (max bs.length 512) bs ⟨false, false⟩ (by omega)
+  simp only [h1, Outcome.bind]
+  have : ¬ n < 0 := by omega
+  simp only [this, if_false]; rfl
+
+/-- offsetToLineColumn: `s[co:]` is always in range and the loop ends, for every string and every
+    offset (negative and beyond the end included) -/
+theorem line_column_total (s : List Nat) (offset : Int) : ∃ r, offsetToLineColumn s offset = .ok (some r) :=
+  lineColLoop_good s offset (s.length + 1) 0 1 (by omega) (by omega)
+
+theorem query_fromstring_total (c : JV) (parseErr : Option Int) : (queryFromString c parseErr).noFault = true := by
+  unfold queryFromString
+  split
+  · rfl
+  · split
+    · rfl
+    · rename_i s _ _ off
+      obtain ⟨r, hr⟩ := line_column_total s off
+      split
+      · simp only [hr, Outcome.bind]; rfl
+      · rfl
+
+/-- url unescape: the second loop (which indexes s[i+1], s[i+2] without a test) is only run on
+    strings the first loop accepted -/
+theorem url_unescape_total (plusSpace : Bool) (s : List Nat) : (unescape plusSpace s).noFault = true :=
+  unescape_noFault plusSpace s
+
+/-- …and it is not safe by itself: on a string the first loop rejects it indexes past the end -/
+theorem url_unescape_build_alone_panics : (unescapeBuild true [97, 37, 52]).isPanic = true := by decide
+
+theorem from_urlencode_total (c : JV) : (fromUrlEncode c).noFault = true :=
+  castwrap0_total castStr (unescape true) (unescape_noFault true) c
+theorem from_urlpath_total (c : JV) : (fromUrlPath c).noFault = true :=
+  castwrap0_total castStr (unescape false) (unescape_noFault false) c
+
+/-- from_urlquery: every key ParseQuery stores holds at least one value, so `v[0]` is in range -/
+theorem from_urlquery_str_total (s : List Nat) : (fromUrlQueryStr s).noFault = true := by
+  unfold fromUrlQueryStr
+  obtain ⟨m, e, h, hm⟩ := parseQueryPieces_good (splitAmp (s.length + 1) s) [] false (by intro p hp; simp at hp)
+  simp only [h, Outcome.bind]
+  split
+  · rfl
+  · exact fromURLValues_noFault m hm
+
+theorem from_urlquery_total (c : JV) : (fromUrlQuery c).noFault = true :=
+  castwrap0_total castStr fromUrlQueryStr from_urlquery_str_total c
+
+/-- `v[0]` IS a fault on a key without values: the invariant is what keeps it away -/
+theorem from_url_values_empty_panics : (fromURLValues [([97], [])]).isPanic = true := by decide
+
+/-- to_urlquery / to_url: NormalizeToStrings of a map is a map — `panic("not map")` is dead code -/
+theorem to_urlquery_total (c : JV) : (toUrlQuery c).noFault = true := by
+  unfold toUrlQuery
+  split
+  · rfl
+  · simp only [normStr_obj]; rfl
+
+theorem to_url_total (c : JV) : (toUrl c).noFault = true := by
+  unfold toUrl
+  split
+  · rfl
+  · simp only [normStr_obj]; rfl
+
+/-- _to_csv: `opts.Comma[0]` is guarded, `panic("not array")` is dead code, for all rows / options -/
+theorem csv_row_total (delim : Nat) (row : JV) : (csvRow delim row).noFault = true := by
+  unfold csvRow
+  split
+  · rfl
+  · simp only [normStr_arr]
+    split
+    · rfl
+    · split <;> rfl
+
+theorem csv_rows_total (delim : Nat) (rows : List JV) : (csvRows delim rows).noFault = true := by
+  induction rows with
+  | nil => rfl
+  | cons r rest ih =>
+    unfold csvRows
+    exact noFault_bind_ok _ _ (csv_row_total delim r) (fun _ _ => ih)
+
+theorem to_csv_total (c opts : JV) : (toCSV c opts).noFault = true := by
+  unfold toCSV toCSVWith
+  split
+  · rfl
+  · split
+    · rfl
+    · rename_i comma _
+      apply noFault_bind_ok
+      · unfold csvComma
+        by_cases h : comma.isEmpty = true
+        · simp [h, noFault, isPanic, isResource]
+        · simp only [h, Bool.and_false, Bool.false_eq_true, if_false]
+          apply goGet_noFault
+          cases comma with
+          | nil => simp at h
+          | cons _ _ => simp
+      · intro d _; exact csv_rows_total d _
+
+/-- without the `!= ""` test the empty comma of `{comma: ""}` is an index out of range -/
+theorem to_csv_unguarded_panics :
+    (toCSVUnguarded (.arr []) (.obj [("comma", .str [])])).isPanic = true := by decide
+
+/-- _stdio_write / _stdio_info: the fd switch and the comma-ok assertions -/
+theorem stdio_fd_op_total (fd : JV) (hasIface : Bool) : (stdioFdOp fd hasIface).noFault = true := by
+  unfold stdioFdOp
+  split
+  · rfl
+  · split
+    · rfl
+    · split <;> rfl
+
+/-- _stdio_read with its casts: the allocation is bounded (stdio_read_total) and `buf[0:n]` is in
+    range for whatever the reader delivered -/
+theorem stdio_read_call_total (fd l : JV) (isReader : Bool) (avail : Nat) :
+    (stdioReadCall fd l isReader avail).noFault = true := by
+  unfold stdioReadCall
+  split
+  · rfl
+  · split
+    · rfl
+    · split
+      · rfl
+      · apply noFault_bind_ok _ _ (stdio_read_total _ _)
+        intro len _
+        apply noFault_bind_ok _ _ (goSliceTo_noFault _ _ (Nat.min_le_right _ _))
+        intro _ _; rfl
+
+/-! non-vacuity of the second batch -/
+
+example : fromHex (.str [52, 49]) = .ok [65] ∧ fromHex (.int 1) = .err "func-type" ∧
+    fromHex (.dv (.str [102, 70])) = .ok [255] := by decide
+example : toBitReader 0 false (.arr [.int 255, .str [97, 98], .arr [.flt (.fin 1 2)]]) = .ok 32 ∧
+    toBitReader 0 false (.arr [.int 256]) = .err "byte range" ∧ toBitReader 0 false (.int 256) = .ok 9 ∧
+    toBitReader 0 false (.int 0) = .ok 1 ∧ toBitReader 0 false (.flt .nan) = .ok 64 ∧
+    toBitReader 0 false (.obj []) = .err "value can't be a binary" := by decide
+example : (512 : Nat) ≥ 5 ∧ nalRead 512 [0, 0, 3, 1, 0, 0, 3] ⟨false, false⟩ = .ok (5, 5, ⟨false, false⟩, [0, 0, 1, 0, 0]) ∧
+    nalRead 512 [3, 3] ⟨true, true⟩ = .ok (1, 1, ⟨false, false⟩, [3]) := by decide
+example : offsetToLineColumn [97, 10, 98, 99, 10, 100] 3 = .ok (some (2, 1)) ∧
+    offsetToLineColumn [97, 10, 98] 100 = .ok (some (2, 98)) ∧ offsetToLineColumn [] (-1) = .ok (some (1, -1)) := by decide
+example : unescape true [97, 43, 37, 52, 49] = .ok [97, 32, 65] ∧ unescape false [43] = .ok [43] ∧
+    unescape true [37, 52] = .err "invalid URL escape" ∧ unescape true [37, 120, 49] = .err "invalid URL escape" := by decide
+example : fromUrlQueryStr [97, 61, 49, 38, 97, 61, 50, 38, 98] = .ok 2 ∧ fromUrlQueryStr [97, 59, 98] = .err "parse query" ∧
+    fromUrlQueryStr [38, 38] = .ok 0 := by decide
+example : toCSV (.arr [.arr [.int 1, .str [97]], .null]) (.obj [("comma", .str [59])]) = .ok () ∧
+    toCSV (.arr [.arr [.arr []]]) .null = .err "expected row record to be scalars" ∧
+    toCSV (.arr [.arr []]) (.obj [("comma", .str [34])]) = .err "csv: invalid field or comment delimiter" ∧
+    toCSV (.arr []) (.obj [("comma", .str [])]) = .ok () ∧ toCSV (.arr [.int 1]) .null = .err "expected row to be an array" := by decide
+example : toUrlQuery (.obj [("a", .arr [.int 1, .null])]) = .ok () ∧ toUrlQuery (.arr []) = .err "func-type" := by decide
+example : toStrEncoding (.str [97]) (.obj [("encoding", .str [85, 84, 70, 56])]) (.ok ()) = .ok () ∧
+    toStrEncoding (.str [97]) (.obj [("encoding", .str [120])]) (.ok ()) = .err "unknown string encoding" ∧
+    toHash 0 (.str [97]) (.obj [("name", .str [109, 100, 53])]) = .ok () ∧
+    toHash 0 (.str [97]) .null = .err "unknown hash function" := by decide
+example : stdioReadCall (.str [115, 116, 100, 105, 110]) (.int 16) true 3 = .ok 3 ∧
+    stdioReadCall (.str [115, 116, 100, 105, 110]) (.int (-1)) true 3 = .err "read-length" ∧
+    stdioReadCall (.str [120]) (.int 1) true 0 = .err "unknown-fd" := by decide
 
 end Props.C13
